@@ -7,12 +7,14 @@ import (
 	"runtime/debug"
 	"strings"
 	"testing"
+	"testing/synctest"
 )
 
 type vReplayFile struct {
 	Harness string   `json:"harness"`
 	Vec     []uint64 `json:"vec"`
 	Kinds   []string `json:"kinds"`
+	Tier    int      `json:"tier"`
 }
 
 // TestVerifReplay replays one or more solver models (VERIF_REPLAY = JSON file holding a list).
@@ -37,7 +39,12 @@ func TestVerifReplay(t *testing.T) {
 					_ = debug.Stack
 				}
 			}()
-			return vRunReplay(it.Harness, it.Vec, it.Kinds)
+			var res string
+			vTierVal = it.Tier
+			synctest.Test(t, func(t *testing.T) {
+				res = vRunReplay(it.Harness, it.Vec, it.Kinds)
+			})
+			return res
 		}()
 		fmt.Printf("VREPLAY-ITEM %d %s covers=%s\n", i, out, strings.Join(vCovers, ","))
 	}
